@@ -3,7 +3,7 @@
     natives.  No Extract Constant; N / positive / nat stay inductive. *)
 Require Extraction.
 Require Import ExtrOcamlBasic.
-From RL Require Import Base.Md5 Model.Decode Model.Encode Model.Hide Model.Ops Model.Render.
+From RL Require Import Base.Md5 Model.Decode Model.Cost Model.Encode Model.Hide Model.Ops Model.Render.
 Extraction Language OCaml.
 Extraction "model.ml"
   m_decode m_avps m_decode_avp m_encode m_enc_avp m_get_length m_encode_w m_enc_avp_w
@@ -11,5 +11,5 @@ Extraction "model.ml"
   bm_new acc_first acc_second bm_k32 render avp_name kind_name
   sc_of_code cd_of_code mt_of_code et_of_code pa_of_code mt_code et_code pa_code
   sc_code cd_code decode_avp run utf8_valid
-  default_opts strict_opts len
+  default_opts strict_opts len m_decode_cost m_avps_cost
   N.of_nat N.to_nat N.add N.mul N.div_eucl N.eqb N.ltb.
